@@ -274,7 +274,11 @@ structure Residual (c c' : Cfg) : Prop where
   /-- `ApplyExtends` is outside (C05 owns it; `applyExtends_order_independent` is about C02's own model of it) -/
   extendsOff : c.opts.skipExtends = true
   unicity : ∀ s, RespectsV (fun d => ofMerge s (Unicity.enforceTop d))
-  schema : RespectsV (schemaStage c.opts)
+  /-- only asked when validation is on (`schemaStage_off` discharges it otherwise).  NB: C01's schema model compares the
+  items of a `uniqueItems` array through `jsonKey`, which spells a mapping in *list* order (the correspondence feeds it
+  key-sorted maps, as `encoding/json` does): on arrays of mappings spelled in different orders this field is refutable
+  for the model as it is (`Neg.Whole.schema_model_reads_key_order`) — a sorted `jsonKey` is what the model needs -/
+  schema : c.opts.skipValidation = false → RespectsV (schemaStage c.opts)
   canonical : RespectsV (fun d => ofShort (Short.canonical c.opts.skipInterpolation d))
   omitEmpty : RespectsV (omitEmpty c.omitPats)
   defaultsWF : ∀ kvs r, MWF kvs → C11.setDefaultValues Gen.defaultValues kvs = .ok r → WF r
@@ -327,6 +331,17 @@ theorem pathsStage_same (c : Cfg) (hwf : ∀ v r, WF v → Paths.resolve c.paths
     · exact ⟨e, w1 _ rfl, w2 _ rfl⟩
   · simp only [hs, Bool.false_eq_true, if_false]; exact h
 
+/-- with validation off the schema stage is the identity -/
+theorem schemaStage_off (o : Opts) (h : o.skipValidation = true) : RespectsV (schemaStage o) := by
+  intro v w hvw
+  simp only [schemaStage, h, if_true]
+  exact hvw
+
+theorem schemaStage_same {c c' : Cfg} (R : Residual c c') : RespectsV (schemaStage c.opts) := by
+  cases h : c.opts.skipValidation with
+  | true => exact schemaStage_off _ h
+  | false => exact R.schema h
+
 /-! ## the composition -/
 
 /-- `processRawYaml` from the merge on: six stages, error plumbing in between -/
@@ -335,7 +350,7 @@ theorem mergeStages_same {c c' : Cfg} (R : Residual c c') {d d' : Val} {a b : KV
   unfold mergeStages
   refine Same.bind (mergeStage_same hd h) fun x y hxy => ?_
   refine Same.bind (R.unicity "unicity" x y hxy) fun x y hxy => ?_
-  refine Same.bind (R.schema x y hxy) fun x y hxy => ?_
+  refine Same.bind (schemaStage_same R x y hxy) fun x y hxy => ?_
   refine Same.bind (R.canonical x y hxy) fun x y hxy => ?_
   refine Same.bind (R.omitEmpty x y hxy) fun x y hxy => ?_
   exact R.unicity "unicity2" x y hxy
